@@ -23,3 +23,22 @@ Section C14.
     (cand < 12)%nat /\ offered intersects dist prefilter choose legal c s cand = true.
   Proof. exact (offsets_spec intersects dist prefilter choose legal). Qed.
 End C14.
+
+(** * the candidate vectors and the justification of the skip list (generated forward_with_joint_poses) *)
+From Coq Require Import Lia.
+From VF Require Import Base.Lin Gen.Forward Proofs.ForwardP Proofs.JacobianP Proofs.OffsetsP.
+(** candidate number cand (0..11) replaces joint cand/2 by the caller's 'from' (even) or 'to' (odd) value and nothing else *)
+Theorem C14_candidate_changes_one_joint : forall initial from to cand, (cand < 12)%nat ->
+  jget (cand_vec initial from to cand) (cand_joint cand) = jget (if Nat.even cand then from else to) (cand_joint cand) /\
+  forall k, (k < 6)%nat -> k <> cand_joint cand -> jget (cand_vec initial from to cand) k = jget initial k.
+Proof. intros initial from to cand Hc. split; [apply cand_vec_changed; exact Hc | intros k; apply cand_vec_others; exact Hc]. Qed.
+
+(** every body on the skip list of candidate cand is at the pose it has in the (collision-free) initial configuration *)
+Theorem C14_skipped_links_unmoved : forall p initial from to cand (i : nat), (cand < 12)%nat ->
+  In (Z.of_nat i) (skip_of cand) ->
+  List.nth i (chain p (cand_vec initial from to cand)) iid = List.nth i (chain p initial) iid.
+Proof.
+  intros p initial from to cand i Hc Hin. apply skipped_links_unmoved; [exact Hc|].
+  unfold skip_of in Hin. apply in_map_iff in Hin. destruct Hin as [x [Hx Hs]]. apply Nat2Z.inj in Hx. subst x.
+  apply in_seq in Hs. unfold cand_joint. lia.
+Qed.
